@@ -3,6 +3,7 @@ import Cx.DriverCompile
 import Cx.DriverLit
 import Cx.DriverPike
 import Cx.DriverFast
+import Cx.DriverCompDfa
 import Cx.DriverCost
 import Cx.DriverConfig
 import Cx.DriverCaps
@@ -10,14 +11,19 @@ import Cx.DriverDfa
 import Cx.DriverUtf8Range
 import Cx.DriverRev
 import Cx.DriverRevSuffix
+import Cx.DriverRevInner
+import Cx.DriverRevAnchored
+import Cx.DriverRevSuffixSet
+import Cx.DriverMultilineRevSuffix
 /-! cxdrv — reads requests from stdin (one per line), writes one answer per line. -/
 
 def tokens (line : String) : List String := (line.trimAscii.toString.splitOn " ").filter (· ≠ "")
 
 /-- model-specific handlers first, then the core protocol -/
 def handlers : List (List String → Option String) :=
-  [Cx.DriverCompile.handle?, Cx.DriverLit.handle?, Cx.DriverPike.handle?, Cx.DriverFast.handle?, Cx.DriverCost.handle?,
-   Cx.DriverConfig.handle?, Cx.DriverCaps.handle?, Cx.DriverDfa.handle?, Cx.DriverUtf8Range.handle?, Cx.DriverRev.handle?, Cx.DriverRevSuffix.handle?]
+  [Cx.DriverCompile.handle?, Cx.DriverLit.handle?, Cx.DriverPike.handle?, Cx.DriverFast.handle?, Cx.DriverCompDfa.handle?, Cx.DriverCost.handle?,
+   Cx.DriverConfig.handle?, Cx.DriverCaps.handle?, Cx.DriverDfa.handle?, Cx.DriverUtf8Range.handle?, Cx.DriverRev.handle?, Cx.DriverRevSuffix.handle?,
+   Cx.DriverRevInner.handle?, Cx.DriverRevAnchored.handle?, Cx.DriverRevSuffixSet.handle?, Cx.DriverMultilineRevSuffix.handle?]
 
 def answer (line : String) : String :=
   let toks := tokens line
